@@ -42,7 +42,7 @@ if good:
     rc, out = sh("git apply %s" % patch, "/repo")
     try:
         for c in checks:
-            rc, out = sh("./check %s quick" % c, "/verif")
+            rc, out = sh("./check %s quick" % c, os.environ.get("VERIF_ROOT", "/verif"))
             line = " ".join(l for l in out.split("\n") if l.startswith(("VIOLATION", "OK ", "KNOWN")))
             results[c] = {"exit": rc, "line": line}
             for w in line.split():
